@@ -36,7 +36,7 @@ def run(tier, seed):
              # waiter's own timeout would mask); OBS=2: every waiter timed with a far deadline
              ("muwait_mix", {"VRT_MODE": 0, "VRT_OBS": 1}, 1500, 30000), ("muwait_mix", {"VRT_MODE": 0, "VRT_OBS": 2}, 1500, 30000),
              # F13's shape (reader-mode nsync_mu_wait while a reader is the designated waker): scripted and random schedules
-             ("rdwait_stuck", {}, 3, 10), ("rdwait_stuck", {"VRT_SCRIPT": 0}, 2500, 50000)]
+             ("rdwait_stuck", {}, 3, 10), ("longwait_stuck", {"VRT_CLOCKP": 0}, 5, 30), ("rdwait_stuck", {"VRT_SCRIPT": 0}, 2500, 50000)]
     cov = scen_common.run_scenarios(res, specs, tier, seed, {"C06", "C05", "C02", "C06x"} | scen_common.LIVENESS | scen_common.CRASHES)
     cov["rule"] = ("muwait_mix: 2..4 waiters on {same f+arg, same f+different arg, eq-equivalent args, different f, no condition} in reader/"
                    "writer mode, setters that end with plain nsync_mu_unlock, a bystander using nsync_mu_unlock_without_wakeup after sections "
